@@ -280,6 +280,10 @@ func tenantOracle(prop string, res *RunResult) []Violation {
 								if redeleted[fmt.Sprintf("%d/%s", op.Org, b.G[0])] {
 									cls = "aggregation-shows-deleted-index:index-recreated-after-its-deletion"
 								}
+							} else if int(got) < perIdx[b.G[0]] && crossDeleted[fmt.Sprintf("%d/%s", op.Org, b.G[0])] {
+								// events of this organisation are missing after another organisation deleted its own
+								// index of the same name: the aggregate form of named-index-data-missing
+								cls += ":after-another-tenant-deleted-the-same-index-name"
 							}
 							vs = append(vs, Violation{Sig: prop + ":" + cls, Msg: fmt.Sprintf("%s: count by idx: %s=%v, expected %d", desc, b.G[0], got, perIdx[b.G[0]])})
 						}
